@@ -172,6 +172,8 @@ def finish(ctx: Ctx, started: float, selftest: dict | None = None, write_evidenc
         if rule in fired:
             continue  # a rule that reports a finding is not vacuous (an enumeration may stop at its first finding)
         if got < floor:
+            for u in ctx.undecided[:8]:
+                print(f"UNDECIDED {u}")
             raise AnalysisError(
                 f"rule {rule} matched {got} instance(s), fewer than the {floor} confirmed by reading: "
                 "the rule would pass vacuously"
